@@ -14,6 +14,16 @@ PROPS = {
         "assumptions": ["model strings are sequences of Unicode scalar values (valid UTF-8 in Go)",
                         "the width theorems are about canonical styled text (what servitor's own style layer produces); hostile strings are covered by the correspondence check only"],
     },
+    "C18": {
+        "groups": [{"name": "C18", "quick": 4000, "thorough": 100000},
+                   {"name": "C18x", "quick": 6, "thorough": 9, "workers": 1}],
+        "rule": "random history sequences (add/back/forward, length 0..200) and feed sequences (create or create-list, then append/prepend/up/down/center, length 0..30) observed after every step "
+                "(IsEmpty, Current / Current, and Contains, IsParent, IsChild, Get over offsets -4..4); plus all history sequences up to the length bound and all feed sequences up to bound-2 (group C18x); "
+                "non-trivial = at least two adds and one move (history) / at least two steps (feed); distinct by op content",
+        "trusted": ["Go slice aliasing in History.Add (append on a re-sliced array) is modelled by value semantics; interleaved back/add/forward sequences exercise it"],
+        "assumptions": ["feed.CreateEmpty is dead code on the tree and outside the property (create / create-list are the documented constructors)",
+                        "Go int overflow of feed bounds is out of scope"],
+    },
     "C16": {
         "groups": [{"name": "C16", "quick": 6000, "thorough": 200000}],
         "rule": "prefix/centered/suffix of 0..8 styled lines each x heights 1..16; non-trivial = height exceeds the centred text (buffers are computed); distinct by op content",
@@ -31,6 +41,12 @@ MANIFEST_TEXT = {
         "design_ref": "DESIGN.md §5.0, §5 C13",
         "note": "Trusted: Lean kernel; the correspondence check (testing) between ansi.go and lean/Model/Ansi.lean; Go regexp semantics of the expand pattern (validated differentially); unicode.IsSpace table as transcribed.",
         "technique": "Lean 4 proof (induction over the wrap state machine) + differential correspondence",
+    },
+    "C18": {
+        "text": "Refinement theorems in Lean: every history op sequence keeps the invariant, never panics and denotes what a zipper computes; every feed operation preserves the representation of a two-sided sequence, lookups/containment/parent-child agree with positions, append/prepend never move items, moves stay in bounds. Tied to history.go/feed.go by differential correspondence after every step, exhaustive up to a length bound.",
+        "design_ref": "DESIGN.md §5 C18",
+        "note": "Trusted: Lean kernel; correspondence check (testing; exhaustive to length 7 quick / 9 thorough); slice aliasing and Go map semantics as modelled.",
+        "technique": "Lean 4 proof (refinement to zipper / two-sided sequence by induction over operations) + differential correspondence",
     },
     "C16": {
         "text": "Lean theorems for all prefix/centred/suffix texts and all heights >= 1: CenterVertically returns exactly h lines, centred as specified; ReplaceLastLine keeps the height for texts of >= 2 lines; SetLength is newline-free. Tied to ansi.go by differential correspondence; the height predicate is evaluated on every implementation output.",
